@@ -88,12 +88,16 @@ func zzH_C17_serve() {
 	// other API harness; here: a nil header map, odd pre-set writer state, and
 	// values longer than any limit in the Origin and ACRH positions
 	var s zzScen
-	variant := zzChoose(3)
+	variant := zzChoose(4)
 	switch variant {
 	case 0:
 		s = zzDrawScenario([]int{zzFDispatch})
 	case 1:
 		s = zzDrawScenario([]int{zzFHeaders})
+	case 3:
+		// the remaining scenarios as they are (symbolic ACRM / ACRPN bytes,
+		// empty value lists, every combination of passing and failing steps)
+		s = zzDrawScenario([]int{zzFMethod, zzFPNA, zzFSteps, zzFLists})
 	default:
 		s = zzDrawScenario([]int{zzFOrigin})
 	}
@@ -112,6 +116,7 @@ func zzH_C17_serve() {
 		} else {
 			r.Header[zzACRH] = nil
 		}
+	case 3:
 	default:
 		zzAssume(len(r.Header[zzOrig]) > 0)
 		r.Header[zzOrig][0] = zzLong()
